@@ -93,8 +93,13 @@ CLAIMS = {
             'SE, A5SS, A3SS, MXE, RI on genes with symbolic exon coordinates, both strands: every emitted record, applied '
             'under the documented <DEL>/<INS>/<SUB> semantics, yields exactly the alternative isoform (provenance '
             'membership of an arbitrary genomic position + anchor/donor placement); nothing is emitted when every '
-            'junction is annotated or read support is below the thresholds.',
-            'Event exons coincide with annotated exons as the property states; REF bases (sequence content) are stubbed.'),
+            'junction is annotated or read support is below the thresholds. The parseRMATS command loop reads every given '
+            'file with its own event type and passes the thresholds to every record. Down to peptides on ONE concrete '
+            '3-exon gene: an SE and an RI event go through the real parser, the real GVF-pool conversion and the real '
+            'call_peptide_main, and the traversal reports exactly the non-canonical digestion products of the alternative '
+            'isoform for miscleavage 0..1 (thorough 2) and ALL integer min/max lengths.',
+            'Event exons coincide with annotated exons as the property states; REF bases (sequence content) are stubbed in '
+            'the parser conditions; the peptide-level chain is decided on one fixed gene (+ strand) only.'),
     'C17': (True, CH,
             'circRNA / ciRNA records: fragments equal the strand-corrected reported blocks, id encodes the back-splice '
             'coordinates, non-annotated blocks and ciRNAs outside the tolerance ranges are rejected, circular sequence '
